@@ -169,3 +169,13 @@ def write_replay(prop, finding):
     with open(path, "w") as fh:
         json.dump({"property": prop, **finding.to_json()}, fh, indent=1)
     return path
+
+
+def clean_replays(prop):
+    if os.path.isdir(REPLAY_DIR):
+        for f in os.listdir(REPLAY_DIR):
+            if f.startswith(prop + "-"):
+                try:
+                    os.remove(os.path.join(REPLAY_DIR, f))
+                except OSError:
+                    pass
